@@ -95,8 +95,7 @@ func serixLeg(s *simrt.Sim, reencode bool) {
 	if !ok || n != len(b) {
 		s.Fail("serix-roundtrip", "Decode-rejects-valid:"+e.name, "Decode(validate=%v) of a valid %s encoding returned n=%d ok=%v (len %d)", validate, e.name, n, ok, len(b))
 	}
-	kind := faultKindOf(fr.class)
-	forEachFault(s, fr.class, b, ref.marks, fr.huge, func(in []byte, desc string) {
+	forEachFault(s, fr.class, b, ref.marks, fr.huge, func(in []byte, kind, desc string) {
 		if reencode {
 			var n int
 			var ok bool
@@ -290,8 +289,7 @@ func faultStreamBody(s *simrt.Sim) {
 			probe(s, &fr.st, fr.target, "transport-error", fmt.Sprintf("reader fails at offset %d/%d", k, n), data, fr.measure(), call(data, k))
 		}
 	} else {
-		kind := faultKindOf(fr.class)
-		forEachFault(s, fr.class, data, marks, fr.huge, func(in []byte, desc string) {
+			forEachFault(s, fr.class, data, marks, fr.huge, func(in []byte, kind, desc string) {
 			probe(s, &fr.st, fr.target, kind, desc, in, fr.measure(), call(in, -1))
 		})
 	}
@@ -334,6 +332,13 @@ type deserOp struct {
 var seriLen = []serializer.SeriLengthPrefixType{serializer.SeriLengthPrefixTypeAsByte, serializer.SeriLengthPrefixTypeAsUint16, serializer.SeriLengthPrefixTypeAsUint32}
 
 func genDeserOp(s *simrt.Sim, first bool) deserOp {
+	// The first op of a chain is the entry point under test; the followers are fixed-size reads that do
+	// not allocate (they check that the error / offset state is carried on), so that an allocation or
+	// panic is attributed to the right entry point.
+	pick := s.Choose(17)
+	if !first {
+		pick = []int{0, 1, 3, 4, 16}[s.Choose(5)]
+	}
 	mode := serializer.DeSeriModeNoValidation
 	if s.Choose(2) == 1 {
 		mode = serializer.DeSeriModePerformValidation
@@ -346,7 +351,7 @@ func genDeserOp(s *simrt.Sim, first bool) deserOp {
 			return &tinySeri{den: den, ty: ty}, nil
 		}
 	}
-	switch s.Choose(17) {
+	switch pick {
 	case 0:
 		x := uint16(genBits(s, 16))
 		return deserOp{"ReadNum[uint16]", func(se *serializer.Serializer) []mark { se.WriteNum(x, passErr); return nil },
@@ -385,9 +390,6 @@ func genDeserOp(s *simrt.Sim, first bool) deserOp {
 			func(d *serializer.Deserializer) { d.ReadBytesInPlace(make([]byte, len(x)), passErr) }}
 	case 9:
 		w := s.Choose(3)
-		if !first && w == 2 {
-			w = 1 // a 4-byte allocation prefix behind a faulted variable-length field reads random gigabytes
-		}
 		x := genRawBytes(s, s.Choose(9))
 		minL, maxL := 0, 0
 		if s.Choose(2) == 1 {
@@ -437,9 +439,16 @@ func genDeserOp(s *simrt.Sim, first bool) deserOp {
 		cnt := s.Choose(4)
 		var seris serializer.Serializables
 		for i := 0; i < cnt; i++ {
-			seris = append(seris, &tinySeri{den: den, ty: uint32(7 + s.Choose(2)), v: uint16(genBits(s, 16))})
+			ty := uint32(7 + s.Choose(2))
+			if i == 0 {
+				ty = 7 // must occur
+			}
+			seris = append(seris, &tinySeri{den: den, ty: ty, v: uint16(genBits(s, 16))})
 		}
-		rules := &serializer.ArrayRules{Max: 8, MustOccur: serializer.TypePrefixes{7: struct{}{}}, Guards: serializer.SerializableGuard{ReadGuard: tinySel(den)}}
+		rules := &serializer.ArrayRules{Max: 8, Guards: serializer.SerializableGuard{ReadGuard: tinySel(den)}}
+		if cnt > 0 {
+			rules.MustOccur = serializer.TypePrefixes{7: struct{}{}}
+		}
 		tw := 4
 		if den == serializer.TypeDenotationByte {
 			tw = 1
@@ -530,8 +539,7 @@ func faultDeserBody(s *simrt.Sim) {
 	if !ok || n != len(data) {
 		s.Fail("deser-roundtrip", "Deserializer:"+ops[0].name, "reading back an unfaulted Serializer output returned n=%d ok=%v (len %d)", n, ok, len(data))
 	}
-	kind := faultKindOf(fr.class)
-	forEachFault(s, fr.class, data, marks, fr.huge, func(in []byte, desc string) {
+	forEachFault(s, fr.class, data, marks, fr.huge, func(in []byte, kind, desc string) {
 		probe(s, &fr.st, fr.target, kind, desc+"; chain="+names, in, fr.measure(), call(in))
 	})
 	fr.done()
@@ -579,8 +587,7 @@ func faultSOMapBody(s *simrt.Sim) {
 	if !ok || n != len(data) {
 		s.Fail("serix-roundtrip", "SerializableOrderedMap.Decode-rejects-valid", "Decode of a valid encoding returned n=%d ok=%v (len %d)", n, ok, len(data))
 	}
-	kind := faultKindOf(fr.class)
-	forEachFault(s, fr.class, data, marks, fr.huge, func(in []byte, desc string) {
+	forEachFault(s, fr.class, data, marks, fr.huge, func(in []byte, kind, desc string) {
 		probe(s, &fr.st, fr.target, kind, desc, in, fr.measure(), call(in))
 	})
 	fr.done()
@@ -820,11 +827,11 @@ func faultJSONBody(s *simrt.Sim) {
 			run(tree, "key-dropped:"+sites[idx].kind, fmt.Sprintf("%s (%s) dropped", sites[idx].path, sites[idx].kind))
 		}
 	case "truncate":
-		forEachFault(s, "truncate", doc, nil, false, func(in []byte, desc string) {
+		forEachFault(s, "truncate", doc, nil, false, func(in []byte, _, desc string) {
 			probe(s, &fr.st, fr.target, "truncated", desc, in, fr.measure(), decodeText(in))
 		})
 	case "flip-sampled":
-		forEachFault(s, "flip-sampled", doc, nil, false, func(in []byte, desc string) {
+		forEachFault(s, "flip-sampled", doc, nil, false, func(in []byte, _, desc string) {
 			probe(s, &fr.st, fr.target, "data-flip", desc, in, fr.measure(), decodeText(in))
 		})
 	case "key-duplicated":
